@@ -45,11 +45,15 @@ const KINDS: [TargetKind; 3] = [TargetKind::Owned, TargetKind::SubView, TargetKi
 
 // ------------------------------------------------------------------ C01
 
-fn check_image(scene: &Scene, door: Door, kind: TargetKind, r: &mut Report) {
+fn check_image(scene: &Scene, door: Door, kind: TargetKind, r: &mut Report) { check_image_ctx(scene, door, kind, 0, r) }
+/// painter: 0 = default context (depth test Less, no sort); 1 = BackToFront sort (the depth test has nothing to test on a
+/// colour-only target); 2 = BackToFront sort with the depth test disabled
+fn check_image_ctx(scene: &Scene, door: Door, kind: TargetKind, painter: u8, r: &mut Report) {
     r.eval();
-    let case = || obj! {"kind" => "image", "scene" => scene_json(scene), "door" => format!("{door:?}"), "target" => format!("{kind:?}")};
-    let tag = format!("{door:?}|{kind:?}|{}", short(scene));
-    let out = match render_scene(scene, None, door, kind, &ctx_plain(), Discard::Never, None) {
+    let case = || obj! {"kind" => "image", "scene" => scene_json(scene), "door" => format!("{door:?}"), "target" => format!("{kind:?}"), "painter" => painter as u64};
+    let tag = format!("{door:?}|{kind:?}|p{painter}|{}", short(scene));
+    let ctx = match painter { 0 => ctx_plain(), 1 => Context { depth_sort: Some(DepthSort::BackToFront), ..ctx_plain() }, _ => Context { depth_sort: Some(DepthSort::BackToFront), depth_test: None, ..ctx_plain() } };
+    let out = match render_scene(scene, None, door, kind, &ctx, Discard::Never, None) {
         Ok(o) => o,
         Err(p) => { r.violation(format!("render-panic|{tag}"), format!("rendering panicked: {p}"), case()); return; }
     };
@@ -118,6 +122,10 @@ fn run_image(cfg: &Cfg) -> ! {
                 for (bw, bh, vp) in [(300u32, 3u32, (2u32, 0u32, 300u32, 3u32)), (3, 300, (0, 40, 3, 300))] { check_image(&Scene { tris: scene.tris.clone(), bw, bh, vp }, DOORS[(i / 512 % 3) as usize], KINDS[(i / 1536 % 3) as usize], r); }
             }
             else { check_image(&scene, DOORS[((i / 8 + vi) % 3) as usize], KINDS[((i / 24 + vi) % 3) as usize], r); }
+            if i % 16 == 5 && vi == 0 {
+                // homogeneous scale: the same scene with all clip coordinates multiplied by 2^-20 (and by 2^7) is the same image
+                for sc in [9.5367431640625e-7f32, 128.0] { let tris = scene.tris.iter().map(|t| STri { v: t.v.map(|p| p.map(|c| c * sc)), a: t.a }).collect(); check_image(&Scene { tris, bw, bh, vp }, DOORS[(i / 16 % 3) as usize], KINDS[(i / 48 % 3) as usize], r); r.h("scaled-scene"); }
+            }
         }
     }));
     // multi-triangle scenes from a pool of 24 (first member of each outcode-signature x w-sign class)
@@ -149,10 +157,25 @@ fn run_image(cfg: &Cfg) -> ! {
             check_image(&scene, DOORS[(i % 3) as usize], KINDS[(i / 3 % 2) as usize], r);
         }
     }));
+    // painter scenes: triangles with pairwise disjoint depth ranges of their visible parts, back-to-front sorted, on a
+    // colour-only target (and with the depth test off on a full one): the nearest triangle must still win
+    let opool = order_pool();
+    let on = opool.len() as u64;
+    let wr: Vec<Option<(f64, f64)>> = opool.iter().map(|t| visible_screen_polygon(&t.v, (0, 0, 8, 8)).map(|x| x.1)).collect();
+    let disjoint = |ix: &[usize]| ix.iter().all(|&a| ix.iter().all(|&b| a == b || match (wr[a], wr[b]) { (Some(x), Some(y)) => x.1 < y.0 * 0.999 || y.1 < x.0 * 0.999, _ => true }));
+    rep.merge(par_range(cfg, on * on * on, |i, r| {
+        let (a, b, c) = ((i % on) as usize, (i / on % on) as usize, (i / on / on) as usize);
+        let ix: Vec<usize> = if c == a { if a == b { return; } vec![a, b] } else if a == b || b == c { return; } else { vec![a, b, c] };
+        if !disjoint(&ix) { r.h("painter:ranges-overlap"); return; }
+        let scene = Scene { tris: ix.iter().map(|&k| opool[k].clone()).collect(), bw: 8, bh: 8, vp: (0, 0, 8, 8) };
+        check_image_ctx(&scene, DOORS[(i % 3) as usize], TargetKind::ColorOnly, 1, r);
+        check_image_ctx(&scene, DOORS[((i + 1) % 3) as usize], [TargetKind::Owned, TargetKind::SubView][(i % 2) as usize], 2, r);
+        r.h("painter:scene");
+    }));
     rep.sample(0, || obj! {"scene" => "single triangle [[-1.5,1.2,0.4,2],[1.2,-0.35,2,-1],[-0.35,-1.5,-1.5,0.5]] attrs (0,1,0.25), buffer 8x6, viewport x1..7 y2..5, door Batch, target SubView"});
     rep.sample(1, || obj! {"multi" => "ordered triples from a 24-triangle pool of visible triangles with distinct outcode signatures"});
     rep.finish(cfg, "exploration",
-        "scenes = every ordered vertex triple of a clip-space lattice (x,y,z,w incl. negative w; triangles whose plane passes through the clip-space origin filtered and counted) x attribute permutation x viewport/buffer family x front door {render, Batch, Camera} x target {Framebuf<Buf2>, Framebuf<MutSlice2> over strided sub-views of larger buffers, colour-only}; plus every ordered pair and triple from a 24-triangle pool. Oracle: independent f64 per-pixel reference (projective barycentric solve, nearest by 1/w) with the statement's ambiguity mask (16 probes at 0.03 px, internal fan edges from the public clip API, 0.1% depth ties): inside => attribute within 0.5% and 1/w within 0.2%, outside => sentinel colour and depth intact. non-trivial = scene with >=1 judged inside pixel that is clipped or multi-triangle.",
+        "scenes = every ordered vertex triple of a clip-space lattice (x,y,z,w incl. negative w; triangles whose plane passes through the clip-space origin filtered and counted) x attribute permutation x viewport/buffer family x front door {render, Batch, Camera} x target {Framebuf<Buf2>, Framebuf<MutSlice2> over strided sub-views of larger buffers, colour-only}; plus every ordered pair and triple from a 24-triangle pool; plus 1 in 16 scenes re-rendered with all clip coordinates scaled by 2^-20 and 2^7 (same image); plus painter scenes (pairs/triples of the C06 pool with disjoint visible depth ranges, BackToFront sort, colour-only target or depth test off). Oracle: independent f64 per-pixel reference (projective barycentric solve, nearest by 1/w) with the statement's ambiguity mask (16 probes at 0.03 px, internal fan edges from the public clip API, 0.1% depth ties): inside => attribute within 0.5% and 1/w within 0.2%, outside => sentinel colour and depth intact. non-trivial = scene with >=1 judged inside pixel that is clipped or multi-triangle.",
         &["attribute range is 1 (values 0, 0.25, 1)", "the fragment shader smuggles the attribute's bit pattern through the colour word", "initial depth = per-pixel distinct values < 3e-7"]);
 }
 
@@ -377,9 +400,9 @@ fn explore_order(scene: &Scene, r: &mut Report, scene_id: u64, discard: Discard)
     }
     if terminals.len() > 1 { r.h("multiple-terminal-buffers(tied pixels only)"); }
     // second clause: depth test off + back-to-front sort == depth-buffered image when depth ranges are disjoint
-    let zr: Vec<(f32, f32)> = scene.tris.iter().map(|t| { let z: Vec<f32> = t.v.iter().map(|p| p[3]).collect(); (z.iter().cloned().fold(f32::MAX, f32::min), z.iter().cloned().fold(f32::MIN, f32::max)) }).collect();
-    let all_pos_w = scene.tris.iter().all(|t| t.v.iter().all(|p| p[3] > 0.0));
-    let disjoint = all_pos_w && (0..n).all(|i| (0..n).all(|j| i == j || zr[i].1 < zr[j].0 || zr[j].1 < zr[i].0));
+    // depth range of each triangle's visible part (triangles of which nothing is visible constrain nothing)
+    let zr: Vec<Option<(f64, f64)>> = scene.tris.iter().map(|t| visible_screen_polygon(&t.v, scene.vp).map(|x| x.1)).collect();
+    let disjoint = (0..n).all(|i| (0..n).all(|j| i == j || match (zr[i], zr[j]) { (Some(a), Some(b)) => a.1 < b.0 * 0.999 || b.1 < a.0 * 0.999, _ => true }));
     if disjoint {
         r.eval();
         let ctx = Context { depth_test: None, depth_sort: Some(DepthSort::BackToFront), ..ctx_plain() };
@@ -430,6 +453,12 @@ fn order_pool() -> Vec<STri> {
         // nearer by depth, but farther from the eye by Euclidean distance
         mk([[0.2, 0.2], [1.0, 0.3], [0.4, 1.0]], [1.0; 3], 0.65),
         mk([[-0.3, -0.3], [0.6, -0.2], [0.3, 0.6]], [1.2; 3], 0.75),
+        // a layer two ulps behind #0 on the same footprint: depths differ in the last bits only, yet are not equal
+        mk(f0, [1.0000002; 3], 0.85),
+        // needs clipping (no frustum plane has all three vertices outside) but nothing of it is visible: past the top-right corner
+        mk([[1.8, 0.5], [0.5, 1.8], [2.0, 2.0]], [1.5; 3], 0.95),
+        // a ground triangle reaching behind the viewer (two vertices at w = -5): its visible part starts at w = 1.05
+        STri { v: [[-3.0, -1.05, e22 * -5.0 + e23, -5.0], [3.0, -1.05, e22 * -5.0 + e23, -5.0], [0.0, -1.05, e22 * 3.0 + e23, 3.0]], a: [0.05, 0.06, 0.07] },
     ]
 }
 
@@ -450,14 +479,15 @@ fn run_order(cfg: &Cfg) -> ! {
     });
     rep.set("scenes", ns);
     rep.finish(cfg, "model_checking",
-        "explicit-state search per scene of n<=4 (thorough <=6) triangles on an 8x8 Framebuf: state = (set of submitted triangles, colour buffer, depth buffer); transition = one real render() call with ANY non-empty ordered subset of the not yet submitted triangles x depth_sort in {None, FrontToBack, BackToFront}; states deduplicated on the full tuple; invariant in every state: each pixel holds colour and depth of the nearest (largest 1/w) submitted triangle covering it, where coverage and depth per triangle come from solo renders (differential oracle) and pixels with exactly equal depths are exempt; plus: depth test off + BackToFront == depth-buffered image for scenes with disjoint depth ranges; scenes of <= 3 triangles are explored a second time with a checkerboard-discarding fragment shader. Scenes: all 2-, 3- and 4-subsets (thorough: also all 5-subsets and two 6-subsets) of a 16-triangle pool with overlapping, interpenetrating, partially clipped, culled-away and coincident-footprint members.",
+        "explicit-state search per scene of n<=4 (thorough <=6) triangles on an 8x8 Framebuf: state = (set of submitted triangles, colour buffer, depth buffer); transition = one real render() call with ANY non-empty ordered subset of the not yet submitted triangles x depth_sort in {None, FrontToBack, BackToFront}; states deduplicated on the full tuple; invariant in every state: each pixel holds colour and depth of the nearest (largest 1/w) submitted triangle covering it, where coverage and depth per triangle come from solo renders (differential oracle) and pixels with exactly equal depths are exempt; plus: depth test off + BackToFront == depth-buffered image for scenes with disjoint depth ranges; scenes of <= 3 triangles are explored a second time with a checkerboard-discarding fragment shader. Scenes: all 2-, 3- and 4-subsets (thorough: also all 5-subsets and two 6-subsets) of a 19-triangle pool with overlapping, interpenetrating, partially clipped, culled-away, clipped-away (past a frustum corner), behind-the-viewer, coincident-footprint and two-ulp-apart members; depth ranges for the painter clause are those of the exact visible parts.",
         &["per-triangle coverage/depth taken from solo renders (validated separately by C01/C04/C05)", "depth test Less, depth writes on"]);
 }
 
 // ------------------------------------------------------------------ C07
 
 fn signed_area_screen(t: &STri, vp: (u32, u32, u32, u32)) -> Option<f64> {
-    // only for triangles fully inside the frustum with positive w (no clipping => 'the triangle' is well defined on screen)
+    // clipped triangles (also ones with vertices behind the viewer): the winding of what is seen = signed area of the exact visible part
+    if clip_class(&t.v) == "clipped" { return visible_screen_polygon(&t.v, vp).map(|(p, _)| 2.0 * polygon_area(&p)); }
     if clip_class(&t.v) != "visible" { return None; }
     let s: Vec<[f64; 2]> = t.v.iter().map(|p| { let [x, y, _, w] = p.map(|c| c as f64); [vp.0 as f64 + (x / w + 1.0) / 2.0 * (vp.2 as f64 - vp.0 as f64), vp.1 as f64 + (y / w + 1.0) / 2.0 * (vp.3 as f64 - vp.1 as f64)] }).collect();
     Some((s[1][0] - s[0][0]) * (s[2][1] - s[0][1]) - (s[1][1] - s[0][1]) * (s[2][0] - s[0][0]))
@@ -486,6 +516,13 @@ fn check_config(scene: &Scene, flags: u32, discard: Discard, kind: TargetKind, r
         if let Ok(t) = twin(Context { color_write: true, ..ctx.clone() }, discard, kind) {
             if t.depth != out.depth { r.violation(format!("color-write-affects-depth|{tag}"), "depth buffer differs between color_write on and off".into(), case()); return; }
         }
+    }
+    // with the test disabled every fragment passes: depth is written wherever colour is (reference run), and the
+    // configured run's depth buffer is that of the reference run whenever depth writes are on
+    if has_depth {
+        let (bd, od) = (base.depth.as_ref().unwrap(), out.depth.as_ref().unwrap());
+        if let Some(p) = (0..px).find(|&p| (base.color[p] != color_sentinel(p)) != (bd[p].to_bits() != depth_sentinel(p).to_bits())) { r.violation(format!("test-off-depth-not-updated|{tag}"), format!("depth test disabled, both writes on: pixel {p} has its colour {} but its depth {}", if base.color[p] != color_sentinel(p) { "written" } else { "untouched" }, if bd[p].to_bits() != depth_sentinel(p).to_bits() { "written" } else { "untouched" }), case()); return; }
+        if ctx.depth_test.is_none() && ctx.depth_write && discard == Discard::Never && od != bd { r.violation(format!("test-off-depth-differs|{tag}"), "depth test disabled and depth writes on, yet the depth buffer differs from the one obtained with colour writes on".into(), case()); return; }
     }
     // depth test disabled (or colour-only target): every generated fragment reaches the shader
     if ctx.depth_test.is_none() || !has_depth {
@@ -537,11 +574,21 @@ fn check_cull(t: &STri, bw: u32, bh: u32, vp: (u32, u32, u32, u32), kind: Target
     let Ok((fa_none, ca_none)) = draw(t, None) else { return; };
     let Ok((fb_none, cb_none)) = draw(&rev, None) else { return; };
     if fa_none == 0 { return; }
+    // only triangles with at least one pixel centre unambiguously inside (for both re-triangulations) are judged:
+    // a triangle touching pixel centres with its edges only may legitimately yield fragments for one order and none for the other
+    {
+        let (sa, sb) = (Scene { tris: vec![t.clone()], bw, bh, vp }, Scene { tris: vec![rev.clone()], bw, bh, vp });
+        let (oa, ob) = (Oracle::new(&sa), Oracle::new(&sb));
+        if !(0..bh).any(|j| (0..bw).any(|i| matches!(oa.pixel(i, j), Truth::Inside { .. }) && matches!(ob.pixel(i, j), Truth::Inside { .. }))) { r.h("cull:edge-pixels-only"); return; }
+    }
     if fb_none == 0 { r.violation(format!("cull-off-one-order-missing|{tag}"), "with culling off only one vertex order is drawn".into(), case()); return; }
     // same image away from edge pixels: compare pixels that both orders drew or both left
     let orc_scene = Scene { tris: vec![t.clone()], bw, bh, vp };
     let orc = Oracle::new(&orc_scene);
-    for j in 0..bh { for i in 0..bw { let p = (j * bw + i) as usize; if matches!(orc.pixel(i, j), Truth::Inside { .. } | Truth::Outside) { let (a, b) = (ca_none[p] != color_sentinel(p), cb_none[p] != color_sentinel(p)); if a != b { r.violation(format!("cull-off-orders-differ|{tag}"), format!("pixel ({i},{j}) is drawn for one vertex order only although culling is off"), case()); return; } } } }
+    // (the two vertex orders of a clipped triangle are re-triangulated along different internal edges: mask both)
+    let rev_scene = Scene { tris: vec![rev.clone()], bw, bh, vp };
+    let orc_rev = Oracle::new(&rev_scene);
+    for j in 0..bh { for i in 0..bw { let p = (j * bw + i) as usize; if matches!(orc.pixel(i, j), Truth::Inside { .. } | Truth::Outside) && matches!(orc_rev.pixel(i, j), Truth::Inside { .. } | Truth::Outside) { let (a, b) = (ca_none[p] != color_sentinel(p), cb_none[p] != color_sentinel(p)); if a != b { r.violation(format!("cull-off-orders-differ|{tag}"), format!("pixel ({i},{j}) is drawn for one vertex order only although culling is off"), case()); return; } } } }
     for (mode, name) in [(FaceCull::Back, "Back"), (FaceCull::Front, "Front")] {
         let (Ok((fa, _)), Ok((fb, _))) = (draw(t, Some(mode)), draw(&rev, Some(mode))) else { return; };
         // convention: Back culls triangles whose on-screen signed area (x1-x0)(y2-y0)-(y1-y0)(x2-x0) is positive
@@ -550,6 +597,7 @@ fn check_cull(t: &STri, bw: u32, bh: u32, vp: (u32, u32, u32, u32), kind: Target
         if (fa > 0) == (fb > 0) { r.violation(format!("cull-not-exactly-one|{name}|{tag}"), format!("with face_cull = {name} the two vertex orders produced {fa} and {fb} fragments (exactly one must be drawn)"), case()); return; }
         if (fa > 0) != a_drawn_expected { r.violation(format!("cull-wrong-side|{name}|{tag}"), format!("with face_cull = {name} the order with on-screen signed area {area:.2} was {} but should have been {}", if fa > 0 { "drawn" } else { "culled" }, if a_drawn_expected { "drawn" } else { "culled" }), case()); return; }
     }
+    r.h(if clip_class(&t.v) == "clipped" { if t.v.iter().any(|p| p[3] <= 0.0) { "cull:judged-clipped-behind-viewer" } else { "cull:judged-clipped" } } else { "cull:judged-unclipped" });
     r.nontrivial();
 }
 
@@ -660,7 +708,7 @@ fn run_config(cfg: &Cfg) -> ! {
     }));
     // culling: every visible pool/lattice triangle x viewports incl. axis-mirrored ones x target kinds
     let mut tris: Vec<STri> = pool.clone();
-    for k in 0..(if quick { 300 } else { 3000 }) { let i = k * 104729 + 7; let t = [lat[i % ln], lat[(i / ln + i * 5) % ln], lat[(i / ln / ln + i * 11) % ln]]; if clip_class(&t) == "visible" && !rank_deficient(&t) { tris.push(STri { v: t, a: PERMS[k % 6] }); } }
+    for k in 0..(if quick { 300 } else { 3000 }) { let i = k * 104729 + 7; let t = [lat[i % ln], lat[(i / ln + i * 5) % ln], lat[(i / ln / ln + i * 11) % ln]]; if clip_class(&t) != "hidden" && !rank_deficient(&t) { tris.push(STri { v: t, a: PERMS[k % 6] }); } }
     for s in [0.3f32, 0.9] { for (cx, cy) in [(0.0f32, 0.0f32), (0.4, -0.3)] { for w in [1.0f32, 0.5, 2.0] { tris.push(STri { v: [[(cx - s) * w, (cy - s) * w, 0.1 * w, w], [(cx + s) * w, (cy - s * 0.8) * w, 0.2 * w, w], [cx * w, (cy + s) * w, 0.0, w]], a: PERMS[0] }); } } }
     let nt = tris.len() as u64;
     let cvps = [(8u32, 8u32, (0u32, 0u32, 8u32, 8u32)), (8, 6, (1, 2, 7, 5)), (8, 8, (8, 0, 0, 8)), (8, 8, (0, 8, 8, 0)), (8, 8, (8, 8, 0, 0)), (16, 9, (0, 0, 16, 9))];
@@ -676,8 +724,8 @@ fn run_config(cfg: &Cfg) -> ! {
     }
     rep.sample(0, || obj! {"scene" => "2 overlapping triangles, 8x6 buffer viewport (1,2)..(7,5)", "flags" => "cull Front, sort BackToFront, test Greater, color_write off, depth_write on", "discard" => "Parity", "target" => "ColorOnly"});
     rep.finish(cfg, "exploration",
-        "scenes (1-3 pool triangles in both vertex orders, lattice triangles, the empty list) x all 144 Context combinations (face_cull x depth_sort x depth_test x color_write x depth_write) x fragment shader {never, always, checkerboard discard} x target {Framebuf, colour-only}: write masks leave their buffer untouched, colour writes do not influence depth, disabled test => every generated fragment is shaded, discarding shader writes nothing, and Stats (calls, prims, verts, frags in/out) equal independent counts (submitted sizes, harness-side clip class and on-screen winding, shader invocation counters of twin runs, changed-pixel counts), accumulate over calls incl. calls where nothing survives and the Batch door; culling: every unclipped triangle in both vertex orders x 3 modes x 6 viewports incl. axis-mirrored ones x 2 targets: exactly one order drawn, chosen by the harness's own on-screen signed area, both drawn and equal away from edge pixels when off; convention-free cross-check: nine closed convex solids from geom::solids x six view directions through Camera::render look the same with Back culling as without (up to silhouette depth ties) and different with Front culling. non-trivial = configuration fully judged.",
-        &["Back-face convention: positive on-screen signed area (x1-x0)(y2-y0)-(y1-y0)(x2-x0) is a back face, as implied by the solids' outward normals (C15)", "prims.o is judged only for scenes without clipped triangles"]);
+        "scenes (1-3 pool triangles in both vertex orders, lattice triangles, the empty list) x all 144 Context combinations (face_cull x depth_sort x depth_test x color_write x depth_write) x fragment shader {never, always, checkerboard discard} x target {Framebuf, colour-only}: write masks leave their buffer untouched, colour writes do not influence depth, disabled test => every generated fragment is shaded and depth is written wherever colour is, discarding shader writes nothing, and Stats (calls, prims, verts, frags in/out) equal independent counts (submitted sizes, harness-side clip class and on-screen winding, shader invocation counters of twin runs, changed-pixel counts), accumulate over calls incl. calls where nothing survives and the Batch door; culling: every unclipped and every clipped triangle (incl. vertices behind the viewer; winding = signed area of the exact visible part) with at least one unambiguous interior pixel, in both vertex orders x 3 modes x 6 viewports incl. axis-mirrored ones x 2 targets: exactly one order drawn, chosen by the harness's own on-screen signed area, both drawn and equal away from edge pixels when off; convention-free cross-check: nine closed convex solids from geom::solids x six view directions through Camera::render look the same with Back culling as without (up to silhouette depth ties) and different with Front culling. non-trivial = configuration fully judged.",
+        &["Back-face convention: positive on-screen signed area (x1-x0)(y2-y0)-(y1-y0)(x2-x0) is a back face, as implied by the solids' outward normals (C15)", "prims.o is judged only for scenes without clipped triangles", "on-screen winding of a clipped triangle = signed area of its exact visible part (vertex enumeration, not the library's clipper)"]);
 }
 
 fn main() {
@@ -688,7 +736,7 @@ fn main() {
             let door = |c: &J| match c.get("door").and_then(|j| j.as_str()).unwrap_or("") { "Batch" => Door::Batch, "Camera" => Door::Camera, _ => Door::Render };
             let kind = |c: &J| match c.get("target").and_then(|j| j.as_str()).unwrap_or("") { "SubView" => TargetKind::SubView, "ColorOnly" => TargetKind::ColorOnly, _ => TargetKind::Owned };
             match c.get("kind").and_then(|j| j.as_str()).unwrap_or("") {
-                "image" => check_image(&scene_from(c.get("scene").unwrap()), door(c), kind(c), r),
+                "image" => check_image_ctx(&scene_from(c.get("scene").unwrap()), door(c), kind(c), c.get("painter").and_then(|j| j.as_u64()).unwrap_or(0) as u8, r),
                 "safety" => {
                     let f: Vec<f32> = c.get("verts").unwrap().as_arr().unwrap().iter().map(|x| parse_fbits(x).unwrap()).collect();
                     let t: Vec<[f32; 3]> = f.chunks(3).map(|c| [c[0], c[1], c[2]]).collect();
